@@ -141,6 +141,9 @@ class Descriptor:
 
         chain = [shot.guid]
         while shot.parent != NULL_GUID:
+            if shot.parent in chain:
+                raise ValueError(f"Cyclic snapshot chain at GUID {shot.parent}")
+
             shot = self.snapshots.find_shot(shot.parent)
             chain.append(shot.guid)
 
